@@ -235,6 +235,7 @@ def main(argv):
         if tier not in ("quick", "thorough"):
             sys.stderr.write("unknown tier %s\n" % tier)
             return 2
+        os.environ["VERIF_TIER"] = tier
         return run(pid, tier, seed)
     except SystemExit:
         raise
